@@ -136,7 +136,16 @@ func (c12) Gen(r *simrt.Rand, idx int, tier string) *Case {
 	}
 	if r.P(0.08) {
 		c.Sub = "zero-price"
-		j.Dirs = append(j.Dirs, Dir{Kind: "price", Date: day0 + 1, Com: cs[0], Price: 0, Target: cs[ncom-1]})
+		zero := Dir{Kind: "price", Date: day0 + 1, Com: cs[0], Price: 0, Target: cs[ncom-1]}
+		if r.Bool() {
+			j.Dirs = append(j.Dirs, zero)
+		} else {
+			// not the last quote of its day: valid quotes of other pairs follow it
+			j.Dirs = append([]Dir{zero}, j.Dirs...)
+			if ncom > 2 {
+				j.Dirs = append(j.Dirs, Dir{Kind: "price", Date: day0 + 1, Com: cs[1], Price: 7 * QScale, Target: cs[0]})
+			}
+		}
 	}
 	c.J = j
 	c.Val = cs[r.Intn(ncom)]
